@@ -206,3 +206,22 @@ Lemma w_exact_second_sent :
   sends_announcement (outs_of w_exact_ifs w_exact_its 5) = true /\
   queue_times (state_after w_exact_ifs w_exact_its 6) = [].
 Proof. repeat split; vm_compute; reflexivity. Qed.
+
+(* ---- round 7: the deferral after a lost tie-break, on w_prefix_lost ------------------------------------------
+   after the competing probe at +300 ms the probe for the instance name is due at +1300 ms; empty
+   iterations at +500, +1000, +1299 ms send no probe query for it, the iteration at +1300 ms does *)
+Definition idle (t : N) : iter := mkIter t [] [] [].
+Lemma w_prefix_lost_deferral :
+  option_map pb_next (aget n_inst (rg_probing (get_reg (state_after w_prefix_lost_ifs w_prefix_lost_its 3) 2))) = Some 1001300 /\
+  wire_probe_times 2 n_inst (state_after w_prefix_lost_ifs w_prefix_lost_its 3) [idle 1000500; idle 1001000; idle 1001299] = [] /\
+  wire_probe_times 2 n_inst (state_after w_prefix_lost_ifs w_prefix_lost_its 3) [idle 1000500; idle 1001300] = [1001300].
+Proof. repeat split; vm_compute; reflexivity. Qed.
+
+(* w_exact: the probing pass at +895 ms completes the probes; the service is announced in that pass,
+   is Announced afterwards and its second announcement is queued *)
+Lemma w_exact_completion :
+  sends_announcement (outs_of w_exact_ifs w_exact_its 4) = true /\
+  map (fun ks => s_status (snd ks)) (d_svcs (state_after w_exact_ifs w_exact_its 4)) = [[(2, SProbing)]] /\
+  map (fun ks => s_status (snd ks)) (d_svcs (state_after w_exact_ifs w_exact_its 5)) = [[(2, SAnnounced)]] /\
+  queue_times (state_after w_exact_ifs w_exact_its 5) = [1001895].
+Proof. repeat split; vm_compute; reflexivity. Qed.
